@@ -18,7 +18,7 @@ import Nstd.Sha.Spec
      setcount <n>     white box: `count = n` (n a multiple of 64 below 2^64; the buffer then holds nothing)
      fork / assign    copy of the hasher mid-stream into the second object (copy constructor / copy assignment) -> ok
      swap             the second object becomes the active one and vice versa                              -> ok
-     variant rolled|u2  which build configuration of Sha256.cpp the following `xform` lines model (a harness answers
+     variant rolled|unroll|u2  which build configuration of Sha256.cpp the following `xform` lines model (a harness answers
                       `ok` only for the configuration it was compiled in); `reset` returns to `rolled`   -> ok
      xform <state32> <block64>   white box: one `Transform` call on an arbitrary chaining value: a scratch hasher gets
                       `state` := the 8 big-endian words, count 0, `update(block)`; prints the 8 state words   -> <hex>
@@ -54,9 +54,10 @@ def wordsOf (b : List UInt8) : List UInt32 :=
 /-- driver state: the hasher object and the selected build configuration -/
 structure DState where
   sha : Sha
+  /-- build configuration selected by `variant`: 0 rolled, 1 `_SHA256_UNROLL`, 2 `_SHA256_UNROLL2` -/
+  cfg : Nat := 0
   /-- the second object (a copy taken by `fork`/`assign`; a fresh hasher before) -/
   other : Sha
-  u2 : Bool
 
 def stepSha (st : Sha) (ws : List String) : Sha × String :=
   match ws with
@@ -100,17 +101,19 @@ def stepSha (st : Sha) (ws : List String) : Sha × String :=
 
 def stepLine (st : DState) (ws : List String) : DState × String :=
   match ws with
-  | ["reset"] => ({ sha := init, other := init, u2 := false }, "ok")
+  | ["reset"] => ({ sha := init, other := init, cfg := 0 }, "ok")
   | ["fork"] => ({ st with other := st.sha }, "ok")
   | ["assign"] => ({ st with other := st.sha }, "ok")
   | ["swap"] => ({ st with sha := st.other, other := st.sha }, "ok")
-  | ["variant", "rolled"] => ({ st with u2 := false }, "ok")
-  | ["variant", "u2"] => ({ st with u2 := true }, "ok")
+  | ["variant", "rolled"] => ({ st with cfg := 0 }, "ok")
+  | ["variant", "unroll"] => ({ st with cfg := 1 }, "ok")
+  | ["variant", "u2"] => ({ st with cfg := 2 }, "ok")
   | ["xform", s, b] =>
     match fromHex s, fromHex b with
     | some s, some b =>
       if s.length = 32 ∧ b.length = 64 then
-        let r := if st.u2 then transformU2 (wordsOf (toBytes s)) (data32 (toBytes b))
+        let r := if st.cfg = 2 then transformU2 (wordsOf (toBytes s)) (data32 (toBytes b))
+                 else if st.cfg = 1 then transformU1 (wordsOf (toBytes s)) (data32 (toBytes b))
                  else transform (wordsOf (toBytes s)) (data32 (toBytes b))
         (st, digestLine r.2 (digestOf r.1))
       else (st, "bad-op")
@@ -119,4 +122,4 @@ def stepLine (st : DState) (ws : List String) : DState × String :=
 
 end Nstd.Sha
 
-def main : IO Unit := Nstd.Common.ioLoop ({ sha := Nstd.Sha.init, other := Nstd.Sha.init, u2 := false } : Nstd.Sha.DState) Nstd.Sha.stepLine
+def main : IO Unit := Nstd.Common.ioLoop ({ sha := Nstd.Sha.init, other := Nstd.Sha.init, cfg := 0 } : Nstd.Sha.DState) Nstd.Sha.stepLine
